@@ -111,7 +111,10 @@ retry:
 			}
 			// TODO: why is this necessary to ensure correct position info?
 			p.readEOF = false
-			if p.openBquotes > 0 && p.bsp < uint(len(p.bs)) &&
+			// Use peek to know whether there is a next byte, as it refills an
+			// exhausted buffer: if the previous rune was a backslash too,
+			// nothing above has made sure that the next byte is buffered.
+			if p.openBquotes > 0 && p.peek() != utf8.RuneSelf &&
 				((bquotes < p.openBquotes && bquoteEscaped(p.bs[p.bsp])) ||
 					// Backquotes within double quotes also escape double quotes.
 					(bquotes < p.openBquoteDbls && p.bs[p.bsp] == '"')) {
